@@ -226,20 +226,22 @@ class Hist(object):
                 self.v("C10.content", "%s [%s]: %s" % (where, name, "; ".join(t for _, t in df[:5])), kind=kind)
                 raise Stop()
 
-    def reconcile(self, dump, where):
+    def reconcile(self, dump, where, m=None, strict=None, soft=False):
         """C10 clause 3: auto-generated keys continue their numbering and never equal a key
         handed out earlier.  Strict mode: numbers equal the model's.  After a failed op the
         handle's in-memory counters may legitimately have advanced: numbers must then only be
-        fresh (> every number seen for that base) and increasing; the model adopts them."""
-        m = self.model
+        fresh (> every number seen for that base) and increasing; the model adopts them.
+        soft=True: return False instead of reporting (used while matching candidate states)."""
+        m = self.model if m is None else m
+        strict = self.strict if strict is None else strict
         issued = list(m.auto_issued)
         m.auto_issued = []
         if not issued:
-            return
-        if self.strict:
+            return True
+        if strict:
             for key, base, n in issued:
                 m.ledger_max[base] = max(m.ledger_max.get(base, 0), n)
-            return
+            return True
         store_ids = [f["id"] for f in dump["features"]]
         pre_ids = self.pre_ids
         store_new = [i for i in store_ids if i not in pre_ids]
@@ -259,6 +261,8 @@ class Hist(object):
             for key, s_ in zip(mine, theirs):
                 sn = int(AUTO_RE.match(s_).group(2))
                 if sn <= last:
+                    if soft:
+                        return False
                     self.v("C10.ids", "%s: auto-generated key %s re-uses or goes below number %d already handed out for %r" % (
                         where, s_, last, base), kind="recycled_key")
                     raise Stop()
@@ -269,7 +273,9 @@ class Hist(object):
             m.counters[base] = max(m.counters.get(base, 0), last)
         if ren:
             _rename_many(m, ren)
-            self.probes["autokey_gap_adopted"] = self.probes.get("autokey_gap_adopted", 0) + 1
+            if not soft:
+                self.probes["autokey_gap_adopted"] = self.probes.get("autokey_gap_adopted", 0) + 1
+        return True
 
     def backup_pre(self, op):
         mb = op.get("kw", {}).get("make_backup", True)
@@ -344,6 +350,7 @@ class Hist(object):
 
     def adopt_after_failure(self, op, pre, j, fresh):
         """The store must be one of the allowed states; the model adopts the matching one."""
+        was_strict = self.strict
         self.strict = False
         node = self.w.node() if fresh else self.node
         if fresh:
@@ -361,7 +368,10 @@ class Hist(object):
         cands = self.prefix_models(op, pre)
         best = None
         for name, m in cands:
-            m.auto_issued = []
+            if was_strict:
+                m.auto_issued = []
+            elif not self.reconcile(d, "after failed op %d" % j, m=m, strict=False, soft=True):
+                continue
             df = diff_store(m, d, check_rel=False)
             if not df:
                 # level-1 relations exact; level-2 between pre and post
@@ -378,6 +388,8 @@ class Hist(object):
                     return name
             if best is None or len(df) < len(best[1]):
                 best = (name, df)
+        if best is None:
+            best = ("none", [("recycled_key", "every candidate state would need an auto-generated key number that was already handed out")])
         self.v("C10.failed_op_state",
                "op %d (%s) failed; the store is neither the pre-state nor pre-state + a prefix of the arrivals. "
                "closest=%s: %s" % (j, op["op"], best[0], "; ".join(t for _, t in best[1][:4])),
